@@ -25,7 +25,7 @@ theorem reprfacts_tie : Generated.C03.reprFacts = Expected.C03.reprFacts := by d
 
 /-- tie: the `constOp` map of cfg.go (comparisons included, d04f498), for each folding function the go/constant entry
     point and token it uses, whether it wraps its operands in `constant.ToInt`, the Go operator of each typed arm, the
-    integer-quotient switch of `quoConst`, the `constToken` table of typecheck.go, and the nineteen `CheckFacts` about
+    integer-quotient switch of `quoConst`, the `constToken` table of typecheck.go, and the twenty `CheckFacts` about
     the checks that the repairs of the third round put around the folds (constExpr / constOverflow framing of both
     fold sites, the 512-bit and 1074 limits, the shift clamp, the exact integer quotient, no early return for
     quotients, the form of zeroConst, untyped-stays-untyped, floating-point shift counts, checked conversions of
@@ -519,6 +519,35 @@ theorem len_typed_string_witness :
       .unm "len-at-run-time" ∧
     Spec.declGo 0 none (.conv (.i .uint64) (.bin .shl (.un .neg (.int 1)) (.len (.conv .str (.str [97, 98]))))) = .reject := by
   decide
+
+/-! ### conversion of a constant to float32: one rounding (seed C03-3) -/
+
+/-- **the model's conversion of a constant to float32 is the direct one**: `convertConst` yields the float32 nearest to
+    the exact rational value (`round32`: round to nearest, ties to even, from the exact value — `constant.Float32Val`),
+    for every rational `q`; the float64 value plays no part. (`round32` itself is the modelled IEEE rounding of
+    Model/ConstVal.lean, exercised against go/constant by the correspondence: floating-point constant arithmetic stays
+    correspondence-only.) -/
+theorem float32_conversion_direct (q : Q) :
+    convertConstY Expected.C03.facts (.flt q) .f32 =
+      (match round32 q with | some r => .ok (.r .f32 (.flt r)) | none => .unm "float-inf") := by
+  simp only [convertConstY, CV.toFloat, Expected.C03.facts, Expected.C03.evalFacts, Expected.C03.checkFacts, if_true]
+  cases round32 q <;> rfl
+
+/-- **direct rounding ≠ rounding through float64**: `1 + 2^-24 + 2^-60` lies just above the midpoint of the float32
+    neighbours 1 and 1 + 2^-23, by less than half a float64 ulp. Rounded directly it is 1 + 2^-23 (bits 0x3f800001);
+    rounded to float64 first it becomes the midpoint itself, and the tie then goes to the even neighbour 1
+    (0x3f800000). The model with `f32Direct := false` (what the extractor emits when `convertConst` shares the float64
+    arm) computes the second, with the expected facts the first; Go requires the first. -/
+theorem double_rounding_witness :
+    let q : Q := Q.norm (2 ^ 60 + 2 ^ 36 + 1) (2 ^ 60)
+    let FB : Facts := { Expected.C03.facts with
+      eval := { Expected.C03.evalFacts with chk := { Expected.C03.checkFacts with f32Direct := false } } }
+    round32 q = some (Q.norm (2 ^ 23 + 1) (2 ^ 23)) ∧
+    (round64 q).bind round32 = some ⟨1, 1⟩ ∧
+    convertConstY Expected.C03.facts (.flt q) .f32 = .ok (.r .f32 (.flt (Q.norm (2 ^ 23 + 1) (2 ^ 23)))) ∧
+    convertConstY FB (.flt q) .f32 = .ok (.r .f32 (.flt ⟨1, 1⟩)) ∧
+    Spec.convGo .f32 ⟨.flt q, .u .float⟩ = .ok ⟨.flt (Q.norm (2 ^ 23 + 1) (2 ^ 23)), .t .f32⟩ := by
+  decide +kernel
 
 /-- F03-22: `string(c)` of an untyped integer constant outside the int32 range keeps the low 32 bits of the code
     point: `string(4294967296)` is "\x00" (Go: "\uFFFD") -/
